@@ -143,17 +143,20 @@ def _inside(node, root):
     return any(n is node for n in ast.walk(root))
 
 
-def _walk(ctx, fn, cfg, path, env0=None):
-    """evaluate one CFG path (list of (node id, label)) with havoc of loop-assigned names at heads"""
+def _walk(ctx, fn, cfg, path, env0=None, keep=()):
+    """evaluate one CFG path (list of (node id, label)) with havoc of loop-assigned names at heads; names in `keep` are not
+    havoced at the first node of the path (their value on entry comes from env0: the first iteration)"""
     from ..core.symexec import PathResult, Step, loop_assigned
     from ..core.terms import Evaluator
     const_of = ctx.folder.const_of(fn._module)
     pr = PathResult()
     env = dict(env0 or {})
-    for n, lab in path:
+    for pos_, (n, lab) in enumerate(path):
         node = cfg.nodes[n]
         if node.kind in ("test", "for") and isinstance(node.ast, (ast.While, ast.For)):
             for v in loop_assigned(node.ast):
+                if pos_ == 0 and v in keep:
+                    continue
                 env[v] = Term.atom(v + "~")
         if node.kind == "for" and isinstance(node.ast, ast.For):
             for sub in ast.walk(node.ast.target):
